@@ -609,6 +609,75 @@ D28_WHAT = ("a service whose records the encoder cannot write (server label > 63
             "broadcast task fails -- and stays registered: a query for it then raises %s out of %s")
 
 
+FR4_SIG = "C15:dry-run-shielded-by-oversize-record"
+FR4_WHAT = ("F-R4: the D28 dry run is ONE packets() call on the announcement (PTR, SRV, TXT, addresses): the %s record of %s alone exceeds 8966 bytes "
+            "(%d bytes), packets() stops there without raising, and the %s record behind it, which cannot be encoded (%s), is never looked at; the service "
+            "is accepted and registered, and the query for that record raises %s out of %s")
+
+
+def _alone_size(owner, rdata_names, rdata_fixed):
+    """bytes of a datagram holding this one record: header, owner name, 10 fixed bytes, rdata; names are compressed against the
+    suffixes already written in this datagram (as `write_name` does).  Computed from the arguments, without the library."""
+    seen = set()
+    total = 12
+
+    def write(name):
+        nonlocal total
+        labels = [l.encode() for l in name.rstrip(".").split(".")]
+        for i in range(len(labels)):
+            suffix = tuple(labels[i:])
+            if suffix in seen:
+                total += 2
+                return
+            seen.add(suffix)
+            total += 1 + len(labels[i])
+        total += 1
+    write(owner)
+    total += 10 + rdata_fixed
+    for n in rdata_names:
+        write(n)
+    return total
+
+
+def _long_label(name):
+    return any(len(l.encode()) > 63 for l in name.rstrip(".").split("."))
+
+
+def announcement_records(step):
+    """the announcement of a `register` step, in the order `_add_broadcast_answer` writes it: [(kind, owner, qtypes that ask for it, bytes alone,
+    reason it cannot be encoded or None)] -- from the step's fields only"""
+    name, type_, server, port = step["name"], step["type"], step.get("server") or step["name"], step["port"]
+    text = bytes.fromhex(step["text"]) if "text" in step else b"\x03k=v"
+    out = [("PTR", type_, (12, 255), _alone_size(type_, [name], 0), "a label over 63 bytes" if _long_label(type_) or _long_label(name) else None),
+           ("SRV", name, (33, 255), _alone_size(name, [server], 6),
+            "a label over 63 bytes" if _long_label(name) or _long_label(server) else ("port over 65535" if port > 65535 else None)),
+           ("TXT", name, (16, 255), _alone_size(name, [], len(text)),
+            "a label over 63 bytes" if _long_label(name) else ("rdata of %d bytes: the length field has 16 bits" % len(text) if len(text) > 65535 else None))]
+    for a in step.get("addrs", [SELF_IP]):
+        out.append(("AAAA" if ":" in a else "A", server, (28,) if ":" in a else (1,), _alone_size(server, [], 16 if ":" in a else 4),
+                    "a label over 63 bytes" if _long_label(server) else None))
+    return out
+
+
+def shielded_class(sc, data):
+    """F-R4's input class, from the INPUT alone: some registered service's announcement has a record that alone exceeds 8966 bytes and, behind
+    it, a record that cannot be encoded, and the datagram `data` asks for that shielded record.  Returns the words for the report, or None."""
+    pq = B.parse_plain_query(data)
+    if pq is None:
+        return None
+    for st in sc["steps"]:
+        if st.get("op") != "register":
+            continue
+        recs = announcement_records(st)
+        for i, (kind, owner, qtypes, alone, bad) in enumerate(recs):
+            if alone <= 8966:
+                continue
+            for (kind2, owner2, qtypes2, _alone2, bad2) in recs[i + 1:]:
+                if bad2 is not None and any(qn.lower() == owner2.lower() and qt in qtypes2 for (qn, qt, _qc) in pq[1]):
+                    return (kind, st["name"], alone, kind2, bad2)
+    return None
+
+
 def unsafe_scenario(sc):
     return any(st.get("unsafe") for st in sc["steps"])
 
@@ -623,7 +692,11 @@ def judge(obs, sc=None):
         if e["exc"] == "HangDetected":
             bad.append(("C15:hang", "a call into the library did not return within the CPU-time budget (api stream, block %d, %d bytes): an unbounded loop" % (e["block"], e["len"])))
             continue
-        if unsafe and e["exc"] in ENC_EXC:
+        blk = obs["blocks"][e["block"]] if 0 <= e.get("block", -1) < len(obs["blocks"]) else {}
+        fr4 = shielded_class(sc, bytes.fromhex(blk["data"])) if sc is not None and e["exc"] in ENC_EXC and blk.get("op") == "r" else None
+        if fr4 is not None:
+            bad.append((FR4_SIG, FR4_WHAT % (fr4 + (e["exc"], "datagram_received (block %d)" % e["block"]))))
+        elif unsafe and e["exc"] in ENC_EXC:
             bad.append((D28_SIG, D28_WHAT % (e["exc"], "datagram_received (block %d)" % e["block"])))
         else:
             bad.append(("C15:escape:%s" % e["exc"], "%s escaped datagram_received (api stream, block %d, %d bytes)" % (e["exc"], e["block"], e["len"])))
@@ -685,6 +758,9 @@ def check_corpus(res, name, body, seen):
     res.evaluations += len(obs["blocks"])
     role = body["role"]
     res.count("corpus-scenario:" + role)
+    # corpus scenarios are stage O only: their block logs are not handed to the driver (several are outside the hypotheses of the closed
+    # theorems on purpose -- `model_on: false` in the file says so explicitly, e.g. F-R4's input is outside `ArgsInRange.fits`)
+    res.count("corpus-scenario-not-replayed-through-the-model" + ("" if body.get("model_on", True) else ":outside-hypotheses"))
     if role == "defect":
         for sig, what in judge(obs, sc):
             B.violate_limited(res, seen, sig, what, {"file": name, "scenario": sc})
